@@ -658,7 +658,7 @@ Proof.
   assert (Hep : 1 <= effective_pred w h comps P pred pixels <= 7).
   { unfold effective_pred. destruct (Z.eqb_spec pred 0); [apply select_best_range | lia]. }
   pose proof (encode_stream_fwd w h comps P (effective_pred w h comps P pred pixels) _ bits vals Hopt) as Hf. rewrite Henc in Hf.
-  rewrite (lookup_ok_facts bits vals (table_ok_facts _ _ Hok)) in Hf. apply Ok_inj in Hf. subst s.
+  apply Ok_inj in Hf. subst s.
   apply t81_decode_stream_of; assumption.
 Qed.
 
